@@ -16,7 +16,7 @@ import json
 import os
 
 from pyfront import ir
-from pyfront.interp import Interp, TranslationError, RaisedInSource, Builtin, Obj, Closure, Opaque
+from pyfront.interp import Interp, TranslationError, RaisedInSource, Builtin, Obj, Closure, Opaque, BoundMethod
 
 F = 'neurodiffeq/generators.py'
 P = lambda n: ('par', n)
@@ -26,6 +26,10 @@ LN10 = ('ln', ('cst', 10))
 
 CANON_VARS = ['i', 'u0', 'u1', 'u2', 'u3', 'z0', 's0', 's1', 'atan', 'denom']
 CANON_PARS = ['a', 'b', 'n', 'pi', 'tiny']
+
+
+def _is_static(fn):
+    return any(isinstance(d, ast.Name) and d.id == 'staticmethod' for d in fn.decorator_list)
 
 
 class NeedFact(TranslationError):
@@ -131,6 +135,14 @@ class GenInterp(Interp):
             return super().call_function(node2, args, kwargs, closure_env, owner=owner)
         return super().call_function(node, args, kwargs, closure_env, owner=owner)
 
+    def assign(self, target, val, env):
+        if isinstance(target, ast.Attribute) and target.attr == 'requires_grad':
+            obj = self.eval(target.value, env)
+            if isinstance(obj, AT) and isinstance(val, bool):
+                obj.rg = val              # in place, as torch does
+                return
+        return super().assign(target, val, env)
+
     def eval(self, n, env):
         if isinstance(n, ast.UnaryOp) and isinstance(n.op, ast.USub):
             v = super().eval(n.operand, env) if not isinstance(n.operand, ast.UnaryOp) else self.eval(n.operand, env)
@@ -160,6 +172,9 @@ class GenInterp(Interp):
         return super().attribute(ast.Attribute(value=_Pre(base), attr=a, lineno=getattr(n, 'lineno', 0)), env)
 
     def apply(self, n, f, args, kwargs):
+        # a @staticmethod helper called through the instance: the instance is not passed
+        if isinstance(f, BoundMethod) and _is_static(f.func_node):
+            return self.call_function(f.func_node, list(args), kwargs, {}, owner=f.owner)
         if isinstance(f, tuple) and f and f[0] == '%atmethod':
             return self.at_method(n, f[1], f[2], args, kwargs)
         if isinstance(f, tuple) and f and f[0] == '%dictpop':
@@ -288,6 +303,11 @@ class GenInterp(Interp):
         if name in ('torch.linspace', 'torch.logspace'):
             rg = kwargs.pop('requires_grad', False)
             steps = kwargs.pop('steps', None)
+            args = list(args)
+            if 'start' in kwargs and not args:
+                args.append(kwargs.pop('start'))
+            if 'end' in kwargs and len(args) == 1:
+                args.append(kwargs.pop('end'))
             if steps is None:
                 if len(args) != 3:
                     self.err(n, f'{name}(start, end, steps) expected')
@@ -528,7 +548,7 @@ def run_entry(repo, ckey, method, noisy=None):
     src = ast.unparse(get_fn)
     uses_getter = 'self.getter()' in src
     if uses_getter:
-        if isinstance(getter, Closure):
+        if isinstance(getter, (Closure, BoundMethod)):      # a lambda, a nested def or a bound method: callable
             ent['getter'] = 'lambda'
         elif getter is None:
             ent['getter'] = 'missing'
